@@ -134,30 +134,36 @@ contract(G + 'TileGrid._tile_iter', props=['C03', 'C01'],
          ],
          must_fail='result[1][0] == 1')
 
+# the tolerance against tiles that are merely touched: a tenth of a pixel, but never more than a tenth of the rectangle itself
+ghost('inset', ['g', 'bbox', 'level'], "min(g.resolutions[level], bbox[2] - bbox[0], bbox[3] - bbox[1]) / 10")
+
 contract(G + 'TileGrid.get_affected_level_tiles', props=['C03', 'C01'],
          types=dict(bbox='tuple[real,real,real,real]', level='int'),
          returns='tuple[tuple[real,real,real,real],tuple[int,int],list[opt[tuple[int,int,int]]]]',
          requires=['grid_wf(self)', 'valid_level(self, level)'],
-         raises={'GridError': 'bbox[2] - bbox[0] < self.resolutions[level] or bbox[3] - bbox[1] < self.resolutions[level]'},
+         # only a rectangle without area is refused (S47: a rectangle thinner than 2/10 pixel across a tile edge used to raise
+         # GridError('Invalid BBOX') because the fixed 1/10-pixel inset swapped its corners)
+         raises={'GridError': 'bbox[2] - bbox[0] <= 0 or bbox[3] - bbox[1] <= 0'},
          ensures=[
-             # the listed block covers the rectangle inset by 1/10 pixel ...
-             'result[0][0] <= bbox[0] + self.resolutions[level] / 10 + 2e-12',
-             'result[0][2] > bbox[2] - self.resolutions[level] / 10 - 2e-12',
-             'result[0][1] <= bbox[1] + self.resolutions[level] / 10 + 2e-12',
-             'result[0][3] >= bbox[3] - self.resolutions[level] / 10 - 2e-12',
+             # the listed block covers the rectangle inset by 1/10 pixel - by 1/10 of its own width/height where that is smaller,
+             # so that never more than a tenth of the rectangle is left out (S47) ...
+             'result[0][0] <= bbox[0] + inset(self, bbox, level) + 2e-12',
+             'result[0][2] > bbox[2] - inset(self, bbox, level) - 2e-12',
+             'result[0][1] <= bbox[1] + inset(self, bbox, level) + 2e-12',
+             'result[0][3] >= bbox[3] - inset(self, bbox, level) - 2e-12',
              # ... and contains no column/row that merely touches it: the first/last column and row overlap
              # the inset rectangle (block edge one tile span inside is already inside the rectangle)
-             'result[0][0] + self.resolutions[level] * self.tile_size[0] > bbox[0] + self.resolutions[level] / 10 - 4e-12',
-             'result[0][2] - self.resolutions[level] * self.tile_size[0] <= bbox[2] - self.resolutions[level] / 10 + 4e-12',
-             'result[0][1] + self.resolutions[level] * self.tile_size[1] >= bbox[1] + self.resolutions[level] / 10 - 4e-12',
-             'result[0][3] - self.resolutions[level] * self.tile_size[1] <= bbox[3] - self.resolutions[level] / 10 + 4e-12',
+             'result[0][0] + self.resolutions[level] * self.tile_size[0] > bbox[0] + inset(self, bbox, level) - 4e-12',
+             'result[0][2] - self.resolutions[level] * self.tile_size[0] <= bbox[2] - inset(self, bbox, level) + 4e-12',
+             'result[0][1] + self.resolutions[level] * self.tile_size[1] >= bbox[1] + inset(self, bbox, level) - 4e-12',
+             'result[0][3] - self.resolutions[level] * self.tile_size[1] <= bbox[3] - inset(self, bbox, level) + 4e-12',
              # the list is the full block, row by row from the top, out-of-grid positions None
              'len(result[2]) == result[1][0] * result[1][1] and result[1][0] >= 1 and result[1][1] >= 1',
              """forall(lambda m: implies(0 <= m < len(result[2]), result[2][m] == ti_elem(self,
-                           col_of(self, bbox[0] + self.resolutions[level] / 10, level),
-                           row_of(self, bbox[3] - self.resolutions[level] / 10, level), result[1][0], level, m)))""",
-             """abs(result[0][0] - tb_x0(self, col_of(self, bbox[0] + self.resolutions[level] / 10, level), level)) <= 2e-12
-                and abs(result[0][3] - tb_y1(self, row_of(self, bbox[3] - self.resolutions[level] / 10, level), level)) <= 2e-12""",
+                           col_of(self, bbox[0] + inset(self, bbox, level), level),
+                           row_of(self, bbox[3] - inset(self, bbox, level), level), result[1][0], level, m)))""",
+             """abs(result[0][0] - tb_x0(self, col_of(self, bbox[0] + inset(self, bbox, level), level), level)) <= 2e-12
+                and abs(result[0][3] - tb_y1(self, row_of(self, bbox[3] - inset(self, bbox, level), level), level)) <= 2e-12""",
          ],
          must_fail='result[1][0] == 1')
 
